@@ -70,7 +70,14 @@ func runHistory(t *rapid.T, o historyOpts, st *propStats) {
 		if c.Type == "create" {
 			suffix = c.Build.suffixFor(p.MultihashAlgorithms[0])
 		}
-		op := anchoredBytes(typ, c.Bytes, suffix, m)
+		// the request may arrive in any JSON spelling (member order, whitespace, escapes): the state must not depend on it
+		opBytes := c.Bytes
+		if rapid.IntRange(0, 2).Draw(t, "respell") == 0 {
+			if v, derr := decodeIJSON(c.Bytes); derr == nil {
+				opBytes = []byte(spell(t, v, 1))
+			}
+		}
+		op := anchoredBytes(typ, opBytes, suffix, m)
 		var before, opSnap snapshot
 		if o.snapshots {
 			before = snap(fmt.Sprintf("resolution model before step %d", s), lib)
